@@ -61,3 +61,142 @@ Proof.
       apply flat_map_ext_in'. intros i _. apply flat_map_ext_in'. intros c _.
       unfold zn0. rewrite nth_skipn. do 2 f_equal. lia.
 Qed.
+
+Lemma flat_map_map' : forall (A B C : Type) (g : A -> B) (f : B -> list C) l,
+  flat_map f (map g l) = flat_map (fun a => f (g a)) l.
+Proof. induction l as [|a l IH]; [reflexivity|]. cbn [map flat_map]. rewrite IH. reflexivity. Qed.
+
+Lemma nth_map_seq : forall (A : Type) (g : nat -> A) n i d, (i < n)%nat -> nth i (map g (seq 0 n)) d = g i.
+Proof.
+  intros A g n i d Hi. rewrite (nth_indep _ d (g 0%nat)) by (rewrite map_length, seq_length; lia).
+  rewrite map_nth, seq_nth by lia. reflexivity.
+Qed.
+
+(* ------------------------------------------------------------------------------------ *)
+
+Section Pixels.
+  Variables (P : Z) (signed : bool) (numPixels comps : Z) (samples : list Z).
+  Hypothesis HP : 1 <= P <= 16.
+  Hypothesis Hnp : 0 <= numPixels.
+  Hypothesis Hc : 1 <= comps.
+  Hypothesis Hlen : zlen samples = numPixels * comps.
+  Hypothesis Hrange : Forall (in_sample_range P signed) samples.
+
+  Let n := Z.to_nat numPixels.
+  Let m := Z.to_nat comps.
+  Let k := Z.to_nat (bytes_per_sample P).
+  Let bytes := flat_map (pack_sample P) samples.
+
+  (* the component arrays: component c, pixel i holds sample i*comps + c *)
+  Definition planar : list (list Z) :=
+    map (fun c => map (fun i => zn0 samples (i * m + c)) (seq 0 n)) (seq 0 m).
+
+  Lemma samples_length : length samples = (n * m)%nat.
+  Proof. unfold zlen, n, m in *. nia. Qed.
+
+  Lemma pack_len : forall v, length (pack_sample P v) = k.
+  Proof. intros v. destruct (pack_sample_bytes P v HP) as [_ H]. unfold zlen, k in *. lia. Qed.
+
+  Lemma k_cases : (P <= 8 /\ k = 1%nat) \/ (8 < P /\ k = 2%nat).
+  Proof.
+    unfold k, bytes_per_sample. rewrite Z.quot_div_nonneg by lia.
+    destruct (Z_le_gt_dec P 8); [left|right]; (split; [lia|]).
+    - replace ((P + 7) / 8) with 1; [reflexivity|]. apply Z.div_unique with (r := P - 1); lia.
+    - replace ((P + 7) / 8) with 2; [reflexivity|]. apply Z.div_unique with (r := P - 9); lia.
+  Qed.
+
+  Lemma sample_range : forall j, (j < length samples)%nat -> in_sample_range P signed (zn0 samples j).
+  Proof. intros j Hj. rewrite Forall_forall in Hrange. apply Hrange. apply nth_In. exact Hj. Qed.
+
+  Lemma idx_bound : forall i c, (i < n)%nat -> (c < m)%nat -> (i * m + c < length samples)%nat.
+  Proof. intros. rewrite samples_length. nia. Qed.
+
+  (* convertPixelData de-interleaves and reads the true values *)
+  Lemma convert_ok : convert_pixel_data numPixels comps P signed bytes = Ok planar.
+  Proof.
+    unfold convert_pixel_data.
+    assert (Hbl : zlen bytes = numPixels * comps * bytes_per_sample P).
+    { unfold zlen, bytes. rewrite (flat_map_chunks_length _ k) by exact pack_len.
+      rewrite samples_length. unfold n, m, k.
+      assert (0 <= bytes_per_sample P) by (unfold bytes_per_sample; apply Z.quot_pos; lia). nia. }
+    rewrite Hbl, Z.ltb_irrefl. f_equal. unfold planar, zrange. fold n m.
+    rewrite map_map. apply map_ext_in. intros c Hcin. apply in_seq in Hcin.
+    rewrite map_map. apply map_ext_in. intros i Hiin. apply in_seq in Hiin.
+    replace (Z.to_nat (Z.of_nat i * comps + Z.of_nat c)) with (i * m + c)%nat by (unfold m; nia).
+    set (s := (i * m + c)%nat).
+    assert (Hs : (s < length samples)%nat) by (apply idx_bound; lia).
+    pose proof (enc_sample_pack P signed (zn0 samples s) HP (sample_range s Hs)) as He.
+    unfold enc_sample in He.
+    destruct k_cases as [[H8 Hk]|[H8 Hk]].
+    - destruct (Z.leb_spec P 8); [|lia].
+      rewrite <- He. f_equal. replace s with (s * k + 0)%nat at 1 by lia.
+      unfold bytes. apply nth_flat_map_chunks; [exact pack_len|exact Hs|lia].
+    - destruct (Z.leb_spec P 8); [lia|].
+      rewrite <- He. f_equal.
+      + replace (2 * s)%nat with (s * k + 0)%nat by lia.
+        unfold bytes. apply nth_flat_map_chunks; [exact pack_len|exact Hs|lia].
+      + replace (2 * s + 1)%nat with (s * k + 1)%nat by lia.
+        unfold bytes. apply nth_flat_map_chunks; [exact pack_len|exact Hs|lia].
+  Qed.
+
+  (* every entry of the component arrays is a sample in range *)
+  Lemma planar_entry : forall c i, (c < m)%nat -> (i < n)%nat ->
+    zn0 (nth c planar []) i = zn0 samples (i * m + c).
+  Proof.
+    intros c i Hcm Hin. unfold planar. rewrite nth_map_seq by exact Hcm. unfold zn0 at 1.
+    rewrite nth_map_seq by exact Hin. reflexivity.
+  Qed.
+
+  Lemma shift_unshift_planar :
+    level_unshift_all P signed (level_shift_all P signed planar) = planar.
+  Proof.
+    unfold level_unshift_all, level_shift_all, planar. rewrite !map_map.
+    apply map_ext_in. intros c Hcin. apply in_seq in Hcin. rewrite !map_map.
+    apply map_ext_in. intros i Hiin. apply in_seq in Hiin.
+    apply (dc_shift_range P signed _ HP). apply sample_range. apply idx_bound; lia.
+  Qed.
+
+  (* GetPixelData re-interleaves and writes the property's container *)
+  Lemma get_pixel_data_planar : get_pixel_data numPixels comps P signed planar = bytes.
+  Proof.
+    unfold get_pixel_data, bytes.
+    assert (Hd : forall i c, (i < n)%nat -> (c < m)%nat ->
+              dec_bytes P signed (zn0 (nth c planar []) i) = pack_sample P (zn0 samples (i * m + c))).
+    { intros i c Hi Hcm. rewrite planar_entry by assumption.
+      apply dec_bytes_pack; [exact HP|]. apply sample_range. apply idx_bound; assumption. }
+    destruct (Z.eqb_spec comps 1) as [E1|E1].
+    - (* getGrayscalePixelData *)
+      assert (Hm1 : m = 1%nat) by (unfold m; lia).
+      unfold get_gray_pixel_data, zrange. fold n. rewrite flat_map_map'.
+      rewrite <- (flat_map_nth_seq (pack_sample P) samples), samples_length, Hm1, Nat.mul_1_r.
+      apply flat_map_ext_in'. intros i Hi. apply in_seq in Hi. rewrite Nat2Z.id.
+      rewrite (Hd i 0%nat) by lia. rewrite Hm1. do 2 f_equal. lia.
+    - (* getInterleavedPixelData *)
+      unfold get_interleaved_pixel_data, zrange. fold n m. rewrite flat_map_map'.
+      rewrite <- (flat_map_rows (pack_sample P) n m samples samples_length).
+      apply flat_map_ext_in'. intros i Hi. apply in_seq in Hi. rewrite flat_map_map'.
+      apply flat_map_ext_in'. intros c Hcc. apply in_seq in Hcc. rewrite !Nat2Z.id.
+      apply Hd; lia.
+  Qed.
+
+  (* the whole-image round trip through the sample front end and back end *)
+  Theorem pixel_roundtrip :
+    exists data, convert_pixel_data numPixels comps P signed bytes = Ok data /\
+      pixel_data_in_range numPixels comps data = true /\
+      (forall c i, 0 <= c < comps -> 0 <= i < numPixels ->
+         zn0 (nth (Z.to_nat c) data []) (Z.to_nat i) = zn0 samples (Z.to_nat (i * comps + c))) /\
+      get_pixel_data numPixels comps P signed
+        (level_unshift_all P signed (level_shift_all P signed data)) = bytes.
+  Proof.
+    exists planar. split; [exact convert_ok|]. split; [|split].
+    - unfold pixel_data_in_range.
+      assert (Hpl : length planar = m) by (unfold planar; rewrite map_length, seq_length; reflexivity).
+      apply andb_true_iff. split.
+      + apply Z.leb_le. unfold zlen. rewrite Hpl. unfold m. lia.
+      + apply forallb_forall. intros row Hrow. fold m in Hrow. rewrite firstn_all2 in Hrow by lia.
+        unfold planar in Hrow. apply in_map_iff in Hrow. destruct Hrow as [c [<- _]].
+        apply Z.leb_le. unfold zlen. rewrite map_length, seq_length. unfold n. lia.
+    - intros c i Hcr Hir. rewrite planar_entry by (unfold m, n; lia). f_equal. unfold m. nia.
+    - rewrite shift_unshift_planar. exact get_pixel_data_planar.
+  Qed.
+End Pixels.
